@@ -162,9 +162,21 @@ pub enum Event {
     /// memtable rotated; the new WAL number
     Rotate { new_wal: u64 },
     /// immutable memtable written to table `file` (size 0 = empty, no file added) at `level`
-    Flush { file: u64, level: usize, size: u64 },
+    Flush {
+        file: u64,
+        level: usize,
+        size: u64,
+        /// files of the version the flush was based on
+        levels_before: Vec<Vec<FileDump>>,
+        /// entries of the new table
+        entries: Vec<Entry>,
+    },
     /// file moved from `level` to `level + 1` without rewriting
-    TrivialMove { file: u64, level: usize },
+    TrivialMove {
+        file: u64,
+        level: usize,
+        levels_before: Vec<Vec<FileDump>>,
+    },
     /// a table compaction installed its results
     Compaction {
         level: usize,
@@ -173,6 +185,14 @@ pub enum Event {
         smallest_snapshot: u64,
         outputs: Vec<u64>,
         manual: bool,
+        /// last published sequence number when the results were installed
+        last_sequence: u64,
+        /// files of the version the results were installed on
+        levels_before: Vec<Vec<FileDump>>,
+        /// entries of every input table (level `level` first, then `level + 1`)
+        input_entries: Vec<(u64, Vec<Entry>)>,
+        /// entries of every output table
+        output_entries: Vec<(u64, Vec<Entry>)>,
     },
     /// a file was removed by `remove_obsolete_files`
     Delete { path: String },
@@ -406,4 +426,55 @@ impl MergeCursor {
             (user_key, seq, op, value.clone())
         })
     }
+}
+
+/// Files of the current version, per level.
+pub(crate) fn dump_levels(
+    version_set: &crate::versioning::VersionSet,
+) -> Vec<Vec<FileDump>> {
+    let current = version_set.get_current_version();
+    let version = current.read();
+    let mut levels = vec![];
+    for level in 0..crate::config::MAX_NUM_LEVELS {
+        levels.push(
+            version.element.files[level]
+                .iter()
+                .map(|file| FileDump {
+                    number: file.file_number(),
+                    size: file.get_file_size(),
+                    smallest: ikey_tuple(file.smallest_key()),
+                    largest: ikey_tuple(file.largest_key()),
+                    allowed_seeks: file.allowed_seeks(),
+                })
+                .collect(),
+        );
+    }
+    levels
+}
+
+/// Every entry of table `file_number`, read through the table cache.
+pub(crate) fn table_entries(
+    table_cache: &Arc<crate::table_cache::TableCache>,
+    file_number: u64,
+) -> Vec<Entry> {
+    use crate::RainDbIterator;
+    let mut entries = vec![];
+    if let Ok(table) = table_cache.find_table(file_number) {
+        let mut iter = crate::tables::Table::iter_with(
+            table,
+            crate::ReadOptions {
+                fill_cache: false,
+                snapshot: None,
+            },
+        );
+        if iter.seek_to_first().is_ok() {
+            while iter.is_valid() {
+                let (key, value) = iter.current().unwrap();
+                let (user_key, seq, op) = ikey_tuple(key);
+                entries.push((user_key, seq, op, value.clone()));
+                iter.next();
+            }
+        }
+    }
+    entries
 }
